@@ -740,6 +740,18 @@ NextPin:
 			rollback()
 			return fmt.Errorf("Node type must be sent with new edges")
 		}
+		// an edge from an ancestor of parentID (or parentID itself) down to
+		// nodeID would close a cycle, and walking upstream would never end
+		cycle, err := sdb.isAncestor(tx, nodeID, parentID)
+		if err != nil {
+			rollback()
+			return err
+		}
+		if cycle {
+			rollback()
+			return fmt.Errorf("Error: node %v is an ancestor of %v", nodeID, parentID)
+		}
+
 		// did not find edge, need to add it
 		edge.Up = parentID
 		edge.Down = nodeID
@@ -818,6 +830,28 @@ NextPin:
 	}
 
 	return nil
+}
+
+// isAncestor returns true if anc is id or can be reached from id by walking
+// edges upstream (deleted edges included)
+func (sdb *DbSqlite) isAncestor(tx *sql.Tx, anc, id string) (bool, error) {
+	if id == anc {
+		return true, nil
+	}
+
+	edges, err := sdb.edges(tx, "SELECT * FROM edges WHERE down=?", id)
+	if err != nil {
+		return false, err
+	}
+
+	for _, e := range edges {
+		found, err := sdb.isAncestor(tx, anc, e.Up)
+		if err != nil || found {
+			return found, err
+		}
+	}
+
+	return false, nil
 }
 
 // checkPointValues refuses values the database cannot represent: SQLite stores
